@@ -2,6 +2,7 @@ package harness
 
 import (
 	"fmt"
+	"os"
 	"sort"
 	"strings"
 	"time"
@@ -22,10 +23,11 @@ type c13Params struct {
 	Files    int // files per session (one glob command)
 	Lines    int
 	Cancel   []int // sessions that get a canceller
+	Truncate bool  // tail: the file of session 0 is truncated while it is followed (the read is retried)
 }
 
 func (p c13Params) String() string {
-	return fmt.Sprintf("mode=%s limit=%d sessions=%d files=%d lines=%d cancel=%v", p.Mode, p.Limit, p.Sessions, p.Files, p.Lines, p.Cancel)
+	return fmt.Sprintf("mode=%s limit=%d sessions=%d files=%d lines=%d cancel=%v truncate=%v", p.Mode, p.Limit, p.Sessions, p.Files, p.Lines, p.Cancel, p.Truncate)
 }
 
 func c13Files(p c13Params) (dir string) {
@@ -68,6 +70,9 @@ func c13Scenario(p c13Params) *explore.Scenario {
 			}
 			return ""
 		}
+		if p.Truncate {
+			c13Files(p) // restore the files a previous execution truncated
+		}
 		res := vrt.Run(cfg, func() {
 			args := DefaultArgs()
 			args.Logger = "none"
@@ -99,6 +104,14 @@ func c13Scenario(p c13Params) *explore.Scenario {
 						s.H.Shutdown()
 					})
 				}
+			}
+			if p.Mode == "tail" && p.Truncate {
+				// the followed file of session 0 shrinks: its reader notices at the next 3 s check and the read is retried
+				vrt.Sleep("before-truncate", time.Second)
+				for f := 0; f < p.Files; f++ {
+					os.Truncate(fmt.Sprintf("%s/s0/f%d.log", dir, f), 0)
+				}
+				vrt.Sleep("after-truncate", 12*time.Second)
 			}
 			if p.Mode == "tail" {
 				// follows never end by themselves: let them run, then end every session
@@ -181,6 +194,7 @@ func c13Params_(tier string) (ps []c13Params, d int) {
 	if tier == "quick" {
 		return []c13Params{
 			{Mode: "tail", Limit: 1, Sessions: 3, Files: 1, Lines: 1, Cancel: []int{1}},
+			{Mode: "tail", Limit: 1, Sessions: 2, Files: 1, Lines: 3, Truncate: true},
 			{Mode: "cat", Limit: 1, Sessions: 3, Files: 1, Lines: 2, Cancel: []int{1}},
 			{Mode: "cat", Limit: 1, Sessions: 2, Files: 2, Lines: 1},
 			{Mode: "cat", Limit: 2, Sessions: 3, Files: 1, Lines: 1, Cancel: []int{0}},
